@@ -6,3 +6,4 @@ INFO = {'not_decided': ['descriptors other than property / __get__-bearing class
                         'that the evaluator produces the right kind of value for each expression form (dispatch of _evaluate): assumed'],
         'stated_lemmas': ['induction on the hierarchy depth: each base\'s table is its own class_lookup / inst_lookup'],
         'trusted': []}
+import contracts.attrs_bounded  # noqa
